@@ -267,8 +267,7 @@ class Sim:
                 exp = "DestinationExistsError"
             else:
                 dst_ws[k] = src_ws.pop(k)
-                h.path = dst
-                h.jobs = [job]  # only the moving handle adopts the destination (siblings become independent stale handles)
+                h.path = dst     # every live shallow copy of the handle follows the move (C04: "every live copy of the handle follows")
             act = lambda: job.move(self.pr[dst])
         elif op == "clone":
             (dst,) = args
